@@ -39,7 +39,7 @@ func relCases() []relCase {
 func (ld *Loaded) relVC(rc relCase, useContracts bool) (vc *VC, err error) {
 	defer func() {
 		if r := recover(); r != nil {
-			if u, ok := r.(Unsupported); ok {
+			if u, ok := asUnsupported(r); ok {
 				err = fmt.Errorf("UNSUPPORTED %s (%s)", u.Msg, rc.name)
 				return
 			}
